@@ -44,11 +44,24 @@ func describeTag(tag string) string {
 	}
 }
 
+// isCollection tells if a node really is a mapping or a sequence (or null).
+// An explicit tag on a scalar, like "rules: !!seq" followed by an empty string, sets the tag but there
+// is nothing to iterate over and Prometheus fails to decode it.
+func isCollection(node *yaml.Node, kind yaml.Kind) bool {
+	if node.Kind == yaml.AliasNode && node.Alias != nil {
+		node = node.Alias
+	}
+	if node.Kind == yaml.ScalarNode && node.ShortTag() != nullTag {
+		return false
+	}
+	return node.Kind == kind || node.Kind == yaml.ScalarNode
+}
+
 func parseGroups(doc *yaml.Node, schema Schema, offsetLine, offsetColumn int, contentLines []string) (groups []Group, _ ParseError) {
 	names := map[string]struct{}{}
 
 	for _, node := range unpackNodes(doc) {
-		if !isTag(node.ShortTag(), mapTag) {
+		if !isTag(node.ShortTag(), mapTag) || !isCollection(node, yaml.MappingNode) {
 			return nil, ParseError{
 				Line: node.Line,
 				Err:  fmt.Errorf("top level field must be a groups key, got %s", describeTag(node.ShortTag())),
@@ -76,7 +89,7 @@ func parseGroups(doc *yaml.Node, schema Schema, offsetLine, offsetColumn int, co
 				}
 			}
 			hasGroups = true
-			if !isTag(entry.val.ShortTag(), seqTag) {
+			if !isTag(entry.val.ShortTag(), seqTag) || !isCollection(entry.val, yaml.SequenceNode) {
 				return nil, ParseError{
 					Line: entry.key.Line,
 					Err:  fmt.Errorf("groups value must be a %s, got %s", describeTag(seqTag), describeTag(entry.val.ShortTag())),
@@ -99,7 +112,7 @@ func parseGroups(doc *yaml.Node, schema Schema, offsetLine, offsetColumn int, co
 }
 
 func parseGroup(node *yaml.Node, schema Schema, offsetLine, offsetColumn int, contentLines []string) (group Group) {
-	if !isTag(node.ShortTag(), mapTag) {
+	if !isTag(node.ShortTag(), mapTag) || !isCollection(node, yaml.MappingNode) {
 		group.Error = ParseError{
 			Line: node.Line,
 			Err:  fmt.Errorf("group must be a %s, got %s", describeTag(mapTag), describeTag(node.ShortTag())),
@@ -172,7 +185,7 @@ func parseGroup(node *yaml.Node, schema Schema, offsetLine, offsetColumn int, co
 			}
 			group.Limit, _ = strconv.Atoi(nodeValue(entry.val))
 		case "labels":
-			if entry.val.ShortTag() != mapTag {
+			if entry.val.ShortTag() != mapTag || !isCollection(entry.val, yaml.MappingNode) {
 				group.Error = ParseError{
 					Line: entry.key.Line,
 					Err:  fmt.Errorf("group labels must be a %s, got %s", describeTag(mapTag), describeTag(entry.val.ShortTag())),
@@ -207,7 +220,7 @@ func parseGroup(node *yaml.Node, schema Schema, offsetLine, offsetColumn int, co
 				}
 			}
 		case "rules":
-			if !isTag(entry.val.ShortTag(), seqTag) {
+			if !isTag(entry.val.ShortTag(), seqTag) || !isCollection(entry.val, yaml.SequenceNode) {
 				group.Error = ParseError{
 					Line: entry.key.Line,
 					Err:  fmt.Errorf("rules must be a %s, got %s", describeTag(seqTag), describeTag(entry.val.ShortTag())),
@@ -272,7 +285,7 @@ func parseGroup(node *yaml.Node, schema Schema, offsetLine, offsetColumn int, co
 }
 
 func parseRuleStrict(rule *yaml.Node, contentLines []string) Rule {
-	if !isTag(rule.ShortTag(), mapTag) {
+	if !isTag(rule.ShortTag(), mapTag) || !isCollection(rule, yaml.MappingNode) {
 		return Rule{
 			Error: ParseError{
 				Line: rule.Line,
